@@ -25,10 +25,7 @@ def _root_.Typedpy.Alias.AliasRow.inScope (r : AliasRow) : Bool := inScopeSite r
 def _root_.Typedpy.Alias.AliasRow.safe (r : AliasRow) : Bool := !r.argMutated && r.agree && r.mode.copies
 
 /-- the known-finding rows (same sites as the keys in known_findings.json) -/
-def knownRows : List (OpK × Kind × Cat) := [
-  -- `AnyOf.serialize` hands every value to its last non-None option: a stored collection reaches `Boolean.serialize` /
-  -- `Enum.serialize`, which return whatever they are given — `<field>.serialize(x.f)` is the live collection
-  (.fieldSerialize, .misfit, .scalar), (.fieldSerialize, .misfit, .enum)]
+def knownRows : List (OpK × Kind × Cat) := []
 
 /-- rows that were findings of the first round and were repaired in typedpy: the `return value` short cuts
     of Array/Deque/Map.serialize (commit 5e8a8ad: fast serialization and `<field>.serialize` handed out the
@@ -46,7 +43,9 @@ def fixedRows : List (OpK × Kind × Cat) := [
   (.construct, .oneOf, .coll), (.construct, .oneOf, .inline), (.construct, .oneOf, .wrap),
   (.construct, .allOf, .coll), (.construct, .allOf, .inline), (.construct, .allOf, .wrap),
   (.setattr, .oneOf, .coll), (.setattr, .oneOf, .inline), (.setattr, .oneOf, .wrap),
-  (.setattr, .allOf, .coll), (.setattr, .allOf, .inline), (.setattr, .allOf, .wrap)]
+  (.setattr, .allOf, .coll), (.setattr, .allOf, .inline), (.setattr, .allOf, .wrap),
+  -- commit 2fb1f4d: the private copy of OneOf / AllOf covers tuples and frozensets too
+  (.construct, .oneOf, .tupl), (.construct, .allOf, .tupl), (.setattr, .oneOf, .tupl), (.setattr, .allOf, .tupl)]
 
 def isKnown (r : AliasRow) : Bool := knownRows.contains (r.op, r.kind, r.cat)
 
